@@ -1,8 +1,308 @@
-from .base import Check
+"""C06 -- shared objects may be used from many threads: no data race, no deadlock,
+same answers as a serial execution.
+
+Exploration over sync-point interleavings of 2-8 simulated client threads.
+Race arm: par-tsan with arena concurrency 1 (every parallel loop runs inline on
+its caller), ThreadSanitizer as happens-before oracle over the serialised
+execution. Result arm: par with W >= 1, each thread's observation log compared
+with the same program run alone."""
+import random, re
+import simdrv
+from .base import Check, key_str
+
+SETUP_3D = ["cube", "sphere", "cyl", "tet"]
 
 
-class Stub(Check):
+def R(rng):
+    return rng.randrange(1000)
+
+
+def make_setup(rng):
+    ops = []
+    n3 = rng.randint(2, 4)
+    for _ in range(n3):
+        k = rng.choice(SETUP_3D)
+        if k == "cube":
+            ops.append("cube:%d,%d,%d,1" % (R(rng), R(rng), R(rng)))
+        elif k == "sphere":
+            ops.append("sphere:%d,%d" % (R(rng), rng.randint(1, 3)))
+        elif k == "cyl":
+            ops.append("cyl:%d,%d,%d,%d,1" % (R(rng), R(rng), R(rng), rng.randint(0, 12)))
+        else:
+            ops.append("tet")
+    # lazy (unevaluated) expression nodes sharing sub-expressions
+    for _ in range(rng.randint(2, 6)):
+        k = rng.random()
+        if k < 0.3:
+            ops.append("rot:%d,%d,%d,%d" % (R(rng), R(rng), R(rng), R(rng)))
+        elif k < 0.45:
+            ops.append("trans:%d,%d,%d,%d" % (R(rng), R(rng), R(rng), R(rng)))
+        elif k < 0.8:
+            ops.append("%s:%d,%d" % (rng.choice(["add", "sub", "int", "add"]), R(rng), R(rng)))
+        elif k < 0.9:
+            ops.append("batch:%d,%s" % (rng.randrange(3), ",".join(str(R(rng)) for _ in range(rng.randint(2, 4)))))
+        else:
+            ops.append("force:%d,%d" % (R(rng), rng.randrange(5)))
+    # cross-sections with pending lazy transforms
+    ops.append("circle:%d,%d" % (R(rng), rng.randint(3, 40)))
+    for _ in range(rng.randint(1, 3)):
+        ops.append(rng.choice(["xscale:%d,%d,%d", "xtrans:%d,%d,%d"]) % (R(rng), R(rng), R(rng)) if rng.random() < 0.7 else "xrot:%d,%d" % (R(rng), R(rng)))
+    if rng.random() < 0.4:
+        ops.append("xadd:%d,%d" % (R(rng), R(rng)))
+    return ops
+
+
+def make_plan(rng, nops, ctx_role):
+    ops = []
+    for _ in range(nops):
+        k = rng.random()
+        if k < 0.25:
+            ops.append("sq:%d,%d" % (R(rng), rng.randrange(10)))
+        elif k < 0.37:
+            ops.append("scopy:%d" % R(rng))
+        elif k < 0.45:
+            ops.append("scopylazy:%d" % R(rng))
+            ops.append(rng.choice(["rot:-1,%d,%d,%d" % (R(rng), R(rng), R(rng)), "force:-1,%d" % rng.randrange(5),
+                                   "add:-1,%d" % R(rng), "refine:-1,0", "copy:-1"]))
+        elif k < 0.50:
+            ops.append("sassign:%d,%d" % (R(rng), R(rng)))
+        elif k < 0.62:
+            ops.append("sbool:%d,%d,%d,%d,%d" % (rng.randrange(3), R(rng), R(rng), R(rng), R(rng)))
+        elif k < 0.68:
+            ops.append("sxf:%d,%d,%d,%d" % (R(rng), R(rng), R(rng), R(rng)))
+        elif k < 0.74:
+            ops.append("rid:%d" % R(rng))
+        elif k < 0.86:
+            ops.append("sxq:%d,%d" % (R(rng), rng.randrange(5)))
+        elif k < 0.90:
+            ops.append("sxcopy:%d" % R(rng))
+        elif k < 0.95:
+            ops.append("sxbool:%d,%d,%d,%d" % (rng.randrange(3), R(rng), R(rng), R(rng)))
+        else:
+            ops.append("sxxf:%d,%d,%d,%d" % (R(rng), R(rng), R(rng), R(rng)))
+    if ctx_role == "eval":
+        ops.insert(rng.randrange(len(ops) + 1), "ctxstatus:%d" % R(rng))
+    elif ctx_role == "cancel":
+        for _ in range(rng.randint(1, 3)):
+            ops.insert(rng.randrange(len(ops) + 1), "poll")
+        ops.insert(rng.randrange(len(ops) + 1), "cancel")
+    elif ctx_role == "poll":
+        for _ in range(rng.randint(1, 4)):
+            ops.insert(rng.randrange(len(ops) + 1), "poll")
+    return ops
+
+
+FRAME = re.compile(r"^\s+#(\d+) (.+?) (/\S+?):(\d+)")
+
+
+def parse_tsan(err):
+    """Returns (races, other) where races = list of 'siteA|siteB' keys."""
+    races, other = [], {}
+    for block in err.split("=================="):
+        m = re.search(r"WARNING: ThreadSanitizer: ([^\n(]+)", block)
+        if not m:
+            continue
+        kind = m.group(1).strip()
+        if kind != "data race":
+            other[kind] = other.get(kind, 0) + 1
+            continue
+        stacks, cur = [], None
+        for line in block.split("\n"):
+            if re.match(r"^\s+(Write|Read|Previous|Atomic|Location|Mutex|Thread)", line) or line.strip() == "":
+                if cur:
+                    stacks.append(cur)
+                cur = [] if re.match(r"^\s+(Write|Read|Previous|Atomic)", line) else None
+                continue
+            fm = FRAME.match(line)
+            if fm and cur is not None:
+                cur.append((fm.group(2), fm.group(3), fm.group(4)))
+        if cur:
+            stacks.append(cur)
+        sites = []
+        for st in stacks[:2]:
+            site = None
+            for fn, path, ln in st:
+                if "/repo/src/" in path or "/repo/include/" in path:
+                    site = "%s:%s" % (path.split("/repo/")[1], ln)
+                    break
+            if site is None and st:
+                site = st[0][0][:60]
+            sites.append(site or "?")
+        races.append("|".join(sorted(sites)))
+    return races, other
+
+
+class C06(Check):
     prop = "C06"
+    level = "exploration"
+    flavours = ["par", "par-tsan"]
+    assumptions = [
+        "the race oracle is ThreadSanitizer's happens-before analysis over a serialised execution whose scheduler is invisible "
+        "to it (uninstrumented TU, raw futex hand-off); races that need a weak-memory reordering of relaxed atomics are out of reach",
+        "the race arm runs with arena concurrency 1 plus the clients, so every report pairs accesses made on behalf of two different callers",
+        "serial reference = the same thread program run alone on a freshly built shared pool, compared modulo a rank renaming of original IDs",
+        "a run that exhausts its step cap is counted inconclusive, not a violation",
+    ]
+
+    def viol_key(self, v):
+        parts = v["clause"].split(":")
+        key = {"clause": parts[0]}
+        if len(parts) > 1:
+            key["op"] = parts[1]
+        if len(parts) > 2:
+            key["field"] = parts[2]
+        return key
+
+    def explore(self):
+        rng = random.Random(self.seed * 16807 + 6)
+        quick = self.tier == "quick"
+        hashes, nontrivial = set(), set()
+        stats = {"runs": 0, "tsan_runs": 0, "result_runs": 0, "steps": 0, "switches": 0, "mutex_blocks": 0, "sync_yields": 0,
+                 "tsan_reports": 0, "deadlocks": 0, "inconclusive_step_cap": 0, "crashes": 0, "log_entries": 0, "with_ctx": 0}
+        tcount = {}
+        other_tsan = {}
+        samples = []
+        while self.time_left() > 10:
+            jobs = []
+            for _ in range(96):
+                setup = make_setup(rng)
+                nthreads = rng.choice([2, 2, 3, 3, 4] if quick else [2, 3, 4, 5, 6, 8])
+                with_ctx = rng.random() < 0.35
+                roles = [None] * nthreads
+                if with_ctx:
+                    roles[0] = "eval"
+                    roles[1] = rng.choice(["cancel", "poll"])
+                plans = [";".join(make_plan(rng, rng.randint(1, 5), roles[t])) for t in range(nthreads)]
+                tsan = rng.random() < 0.5
+                args = {"setup": ";".join(setup), "plans": "|".join(plans), "seed": rng.randrange(1, 1 << 30),
+                        "stay": rng.choice([0, 20, 50, 80]), "sync": rng.choice([0.02, 0.1, 0.3, 1]), "mode": rng.choice([0, 0, 2]),
+                        "pctd": rng.randint(1, 3), "pctlen": rng.choice([50, 200, 1000]), "cap": 3000000}
+                if tsan:
+                    args.update({"W": 1, "thr": 1, "alone": 0})
+                else:
+                    args.update({"W": rng.choice([1, 1, 2, 4]), "thr": rng.choice([1, 64]), "own": rng.choice([30, 70])})
+                jobs.append({"flavour": "par-tsan" if tsan else "par", "kind": "c06", "args": args, "timeout": 240, "ctx": with_ctx})
+            res = self.pool.run_all(jobs, deadline=self.deadline)
+            for j, r in zip(jobs, res):
+                if r.get("skipped"):
+                    continue
+                rep = {"property": "C06", "flavour": j["flavour"], "args": j["args"]}
+                if not r["ok"]:
+                    cls = simdrv.classify_crash(r)
+                    stats["crashes"] += 1
+                    if cls == "deadlock":
+                        stats["deadlocks"] += 1
+                    key = {"clause": "crash_" + cls}
+                    if cls.startswith("signal") or cls in ("asan",):
+                        key["site"] = simdrv.asan_site(r.get("stderr", ""))
+                    self.add_finding(key, "setup=[%s] plans=[%s]: %s" % (j["args"]["setup"], j["args"]["plans"], simdrv.crash_summary(r)), rep)
+                    continue
+                x = r["res"]
+                sim = x["sim"]
+                self.cov["evaluations"] += 1
+                stats["runs"] += 1
+                stats["steps"] += sim["steps"]
+                stats["switches"] += sim["switches"]
+                stats["mutex_blocks"] += sim["mutex_blocks"]
+                stats["sync_yields"] += sim["sync_yields"]
+                stats["log_entries"] += x["log_entries"]
+                if j["ctx"]:
+                    stats["with_ctx"] += 1
+                if sim["step_cap_hit"]:
+                    stats["inconclusive_step_cap"] += 1
+                tcount[str(x["threads"])] = tcount.get(str(x["threads"]), 0) + 1
+                h = "%s|%s" % (hash(j["args"]["plans"] + j["args"]["setup"]), sim["hash"])
+                hashes.add(h)
+                if sim["switches"] >= 2:
+                    nontrivial.add(h)
+                desc_base = "setup=[%s] plans=[%s] schedule seed=%s sync=%s mode=%s" % (
+                    j["args"]["setup"], j["args"]["plans"], j["args"]["seed"], j["args"]["sync"], j["args"]["mode"])
+                if j["flavour"] == "par-tsan":
+                    stats["tsan_runs"] += 1
+                    races, other = parse_tsan(r.get("stderr", ""))
+                    for k, v in other.items():
+                        other_tsan[k] = other_tsan.get(k, 0) + v
+                    stats["tsan_reports"] += len(races)
+                    for site in set(races):
+                        self.add_finding({"clause": "data_race", "sites": site}, "ThreadSanitizer data race between client threads at %s; %s" % (site, desc_base), rep)
+                else:
+                    stats["result_runs"] += 1
+                for v in x["viol"]:
+                    self.add_finding(self.viol_key(v), "%s: thread %s: %s" % (desc_base, v.get("thread"), v["clause"]), rep)
+                if len(samples) < 5 and sim["switches"] > 3 and rng.random() < 0.05:
+                    samples.append({"flavour": j["flavour"], "setup": j["args"]["setup"], "plans": j["args"]["plans"], "decisions": sim["steps"],
+                                    "switches": sim["switches"], "mutex_blocks": sim["mutex_blocks"], "decision_hash": sim["hash"]})
+        self.cov.update({
+            "distinct_nontrivial": len(nontrivial),
+            "rule": "one evaluation = one scenario (shared pool of lazy Manifolds/CrossSections + 2-8 client thread programs) under one "
+                    "seeded interleaving of sync points (task boundaries, wrapped mutex operations, atomic hooks); distinct = distinct "
+                    "(scenario, decision hash); non-trivial = at least two thread switches",
+            "samples": samples, "threads_histogram": tcount, "totals": stats, "tsan_other_report_kinds_diagnostic": other_tsan,
+            "components": {"real": "manifold library, libstdc++ mutexes/shared_ptr atomics, oneTBB templates",
+                           "stub": "oneTBB runtime scheduler; thread scheduling (token passing at intercepted sync points)"},
+        })
+
+    def reproduce(self, replay, fresh=False):
+        # TSan reports a given race once per process: always replay race findings in a new process
+        fresh = fresh or replay["flavour"] == "par-tsan"
+        r = self.run_job({"flavour": replay["flavour"], "kind": "c06", "args": replay["args"], "timeout": 240}, fresh)
+        if not r["ok"]:
+            cls = simdrv.classify_crash(r)
+            key = {"clause": "crash_" + cls}
+            if cls.startswith("signal") or cls in ("asan",):
+                key["site"] = simdrv.asan_site(r.get("stderr", ""))
+            return key, "crash"
+        exp = replay.get("expect")
+        keys = []
+        if replay["flavour"] == "par-tsan":
+            races, _ = parse_tsan(r.get("stderr", ""))
+            keys += [{"clause": "data_race", "sites": s} for s in sorted(set(races))]
+        keys += [self.viol_key(v) for v in r["res"]["viol"]]
+        h = r["res"]["sim"]["hash"]
+        for k in keys:
+            if exp is None or key_str(k) == key_str(exp):
+                return k, h
+        return (keys[0] if keys else None), h
+
+    def minimise(self, finding):
+        rep = {k: (dict(v) if isinstance(v, dict) else v) for k, v in finding["replay"].items()}
+        want = key_str(finding["key"])
+        rep["expect"] = finding["key"]
+        a = dict(rep["args"])
+
+        def still(b):
+            k, _ = self.reproduce(dict(rep, args=b))
+            return k is not None and key_str(k) == want
+
+        # fewer threads, then fewer ops per thread, then fewer setup ops (suffix cuts keep indices meaningful enough: modulo)
+        plans = a["plans"].split("|")
+        changed = True
+        budget = 30
+        while changed and len(plans) > 2 and budget > 0:
+            changed = False
+            for i in range(len(plans)):
+                budget -= 1
+                cand = plans[:i] + plans[i + 1:]
+                if len(cand) >= 2 and still(dict(a, plans="|".join(cand))):
+                    plans = cand
+                    changed = True
+                    break
+        for i in range(len(plans)):
+            ops = plans[i].split(";")
+            if len(ops) > 1 and budget > 0:
+                def t(sub, i=i):
+                    return still(dict(a, plans="|".join(plans[:i] + [";".join(sub)] + plans[i + 1:])))
+                ops2, c = simdrv.ddmin(ops, t, budget=8)
+                budget -= c
+                if t(ops2):
+                    plans[i] = ";".join(ops2)
+        a["plans"] = "|".join(plans)
+        sops = a["setup"].split(";")
+        sops2, _ = simdrv.ddmin(sops, lambda s: still(dict(a, setup=";".join(s))), budget=12)
+        if still(dict(a, setup=";".join(sops2))):
+            a["setup"] = ";".join(sops2)
+        rep["args"] = a
+        return {"key": finding["key"], "desc": finding["desc"] + " [minimised: setup=%s plans=%s]" % (a["setup"], a["plans"]), "replay": rep}
 
 
-CHECK = Stub()
+CHECK = C06()
